@@ -33,14 +33,22 @@ def gen_pos(j0, ndays):
         ts.append(j0 + float(i))
         if i % 9 == 4:
             ts += [j0 + i + 0.01, j0 + i + 0.02, j0 + i + 0.5]      # an ephemeris in short steps now and then
-    for t in ts:
-        e = Epoch(t)
+    shared = Epoch(j0 - 12345.0)
+    for it, t in enumerate(ts):
+        # every third instant: the run's ONE long-lived Epoch, which answered all of this for an earlier instant, set() to t
+        if it % 3 == 1:
+            def EP(tt, _s=shared):
+                _s.set(tt)
+                return _s
+        else:
+            EP = Epoch
+        e = EP(t)
         lon, lat, dist, par = Moon.geocentric_ecliptical_pos(e)
-        k = Moon.illuminated_fraction_disk(Epoch(t))
-        node = Moon.longitude_mean_ascending_node(Epoch(t))
-        peri = Moon.longitude_mean_perigee(Epoch(t))
-        alon, alat, adist, apar = Moon.apparent_ecliptical_pos(Epoch(t))
-        slon, slat, sr = Sun.apparent_geocentric_position(Epoch(t))
+        k = Moon.illuminated_fraction_disk(EP(t))
+        node = Moon.longitude_mean_ascending_node(EP(t))
+        peri = Moon.longitude_mean_perigee(EP(t))
+        alon, alat, adist, apar = Moon.apparent_ecliptical_pos(EP(t))
+        slon, slat, sr = Sun.apparent_geocentric_position(EP(t))
         lon, lat, par = float(lon), float(lat), float(par)
         rs = float(sr) * AU_KM
         um, us = (float(alon), float(alat)), (float(slon), float(slat))
